@@ -457,6 +457,15 @@ class Canon:
         for name in mutated:
             if name in simple:
                 simple[name] = False
+        # a local bound to a freshly constructed object (other than the small value records) keeps its identity
+        for n in ast.walk(self.fi.node):
+            if isinstance(n, (ast.Assign, ast.AnnAssign)) and isinstance(getattr(n, "value", None), ast.Call):
+                f = n.value.func
+                cname = f.id if isinstance(f, ast.Name) else (f.attr if isinstance(f, ast.Attribute) else "")
+                if cname[:1].isupper() and cname not in PAIR_FIELDS and not cname.isupper():
+                    tg = n.targets[0] if isinstance(n, ast.Assign) else n.target
+                    if isinstance(tg, ast.Name) and tg.id in simple:
+                        simple[tg.id] = False
         # a parameter that is re-assigned is multi-def
         self.inlinable: set[str] = set()
         self.varids: dict[str, S] = {}
